@@ -1051,7 +1051,9 @@ pub fn run_case(c: &Value, seed: u64, idx: u64) -> (String, Option<String>) {
                 let (n, t, m, np) = (u("n"), u("t"), u("m"), u("np"));
                 let params = RangeParameters::<P>::init(n, m, pedersen_std(t)).unwrap();
                 let bl: Vec<Vec<Scalar>> = (0..m).map(|j| (0..t).map(|k| hash_scalar(&[b"sf", &(j as u64).to_le_bytes(), &(k as u64).to_le_bytes(), &seed.to_le_bytes()])).collect()).collect();
-                let real: Vec<u64> = (0..m).map(|j| if j < np { 1 + (j as u64 % ((1u64 << n) - 1)) } else { (1u64 << 40) + 3 }).collect();
+                let maxv = if n >= 64 { u64::MAX } else { (1u64 << n) - 1 };
+                // (for 64 bits no value is out of range: there the dropped commitments are simply ones whose opening the prover ignores)
+                let real: Vec<u64> = (0..m).map(|j| if j < np { 1 + (j as u64 % maxv) } else { (1u64 << 40) + 3 }).collect();
                 let cs: Vec<P> = (0..m).map(|j| params.pc_gens().commit(&Scalar::from(real[j]), &bl[j]).unwrap()).collect();
                 let mut st = RangeStatement::init(params, cs, vec![None; m], None).unwrap();
                 st.minimum_value_promises = (0..np).map(|j| if j % 2 == 1 { Some(1) } else { None }).collect();
